@@ -206,7 +206,7 @@ def shape_stage(ctx, res, nfonts, ntexts, as_failure=False, gen_kw=None):
             for _ in range(ntexts):
                 t = fontsynth.gen_text(r)
                 hx = "".join("%08x" % c for c in t) or "-"
-                lines.append("F0=%d,0,f;S0=0,-1,-1,0,32,0,-1,%s;D0" % (i, hx))
+                lines.append("F0=%d,0,f;S0=0,-1,-1,0,32,0,-1,%s;R0;D0" % (i, hx))
                 mlines.append("shape %s text=%s" % (desc["model"], hx))
         impl = lib.run_lines([exe] + fonts, lines, per_chunk=100)
         model = lib.run_lines([lib.driver_path(), "shape"], mlines, per_chunk=100) if ctx.model_ok else [None] * len(lines)
@@ -215,14 +215,23 @@ def shape_stage(ctx, res, nfonts, ntexts, as_failure=False, gen_kw=None):
         for l, ml, i, m in zip(lines, mlines, impl, model):
             res.evaluations += 1
             res.distinct.add(ml)
-            pi = proj_dump(i)
+            iloop, _, ibody = i.partition(" | ") if i.startswith("loop=") else ("", "", i)
+            pi = proj_dump(ibody)
             if i.startswith(("CRASH", "fault")):
                 res.failures.append({"harness": "h_seg", "mode": "shape", "line": ml, "impl": i[:300], "model": m, "why": "crash / sanitizer fault in gr_make_seg on a synthesised font", "tag": "fault"})
                 continue
             if m is None:
                 continue
-            mm = re.match(r"trie=(\S*) (.*)", m)
-            tb, mbody = (mm.group(1), mm.group(2).strip()) if mm else ("?", m)
+            mm = re.match(r"trie=(\S*) (loop=\S+ passes=\S+ exceeded=\S+ )?(.*)", m)
+            tb, mloop, mbody = (mm.group(1), (mm.group(2) or "").strip(), mm.group(3).strip()) if mm else ("?", "", m)
+            if "exceeded=1" in iloop:
+                res.failures.append({"harness": "h_seg", "mode": "shape", "line": ml, "impl": iloop, "model": mloop, "exe_args": [], "tag": "loop-bound",
+                                     "font_hex": open(fonts[int(l.split("=")[1].split(",")[0])], "rb").read().hex(), "api_line": l,
+                                     "why": "the rule loop of a pass ran more iterations than maxRuleLoop x (slots + insert budget + 2): " + iloop})
+            if pi != "noseg" and mloop and iloop != mloop:
+                res.count("shape:loop-count-differs")
+                pi = iloop + " " + pi
+                mbody = mloop + " " + mbody
             res.count("shape:tables-encode-patterns=" + ("yes" if tb and set(tb) == {"1"} else "no:" + tb))
             res.count("shape:" + ("noseg" if pi == "noseg" else "segment"))
             if pi != mbody:
@@ -247,9 +256,17 @@ def replay_shape(obj):
         p.write_bytes(bytes.fromhex(obj["font_hex"]))
         ops = obj["api_line"].split(";")
         ops[0] = "F0=0," + ops[0].split(",", 1)[1]
-        out = proj_dump(lib.run_lines([exe, str(p)], [";".join(ops)])[0])
+        import re
+        raw = lib.run_lines([exe, str(p)], [";".join(ops)])[0]
+        iloop, _, ibody = raw.partition(" | ") if raw.startswith("loop=") else ("", "", raw)
+        out = proj_dump(ibody)
         m = lib.run_lines([lib.driver_path(), "shape"], [obj["line"]])[0]
-        m = m.split(" ", 1)[1].strip() if m.startswith("trie=") else m
+        mm = re.match(r"trie=(\S*) (loop=\S+ passes=\S+ exceeded=\S+ )?(.*)", m)
+        if mm:
+            print("loop  : impl %s | model %s" % (iloop, (mm.group(2) or "").strip()))
+            m = mm.group(3).strip()
+            if out != "noseg" and (mm.group(2) or "").strip() and iloop != (mm.group(2) or "").strip():
+                out, m = iloop + " " + out, (mm.group(2) or "").strip() + " " + m
         print("model line: %s\nimpl : %s\nmodel: %s\nsame: %s" % (obj["line"][:400], out[:500], m[:500], out == m))
         return out != m
     finally:
